@@ -223,6 +223,29 @@ def run(F, rep):
                   'in the pass over the equations the external variables are removed from mUnknownVariables (statement %s of the loop body) after the NLA siblings are determined (statement %s): equations that share only an external variable are tied into one NLA system' % (ip, isb),
                   'pruned (statement %s) before sibling detection (statement %s)' % (ip, isb))
 
+    rep.rule('C20.G3', 'inside the loop over the dependencies of an equation, whether a dependency is generated first is decided from the dependency and from what the caller asked for, not from properties of the equation that depends on it '
+                       '(an equation that is not recomputed itself - a constant-like one - may still depend on an external variable whose callback must come first)')
+    from engines import single_def as _sd20, enclosing_conditions as _ec20
+    for c in rec:
+        atoms = []
+        for cnd, br, st in _ec20(ge, c):
+            if any(a is deploop[0] for a in ge.ancestors(st)):
+                atoms.append(cnd)
+        bad_ = []
+        eq_d = ge.params[0]['d']
+        for cnd in atoms:
+            todo = [cnd]
+            seen_ = set()
+            while todo:
+                e_ = todo.pop()
+                for x in walk(e_):
+                    if x.get('k') == 'Ref' and x.get('d') == eq_d:
+                        bad_.append(render(cnd)[:80])
+                    if x.get('k') == 'Ref' and x.get('dk') == 'local' and x['d'] not in seen_ and _sd20(ge, x['d']) is not None:
+                        seen_.add(x['d'])
+                        todo.append(_sd20(ge, x['d']))
+        rep.check(not bad_, 'C20.G3', 'dependency-decision|%s' % render(c)[:40], ge.where(c), 'the generation of a dependency depends on the dependent equation itself: `%s`' % (bad_[0] if bad_ else ''), 'decided from the dependency')
+
     _borrow_c17(F, rep)   # which models count as "has ODEs" decides whether the callback takes voi/states/rates: clause shared with C17
     rep.rule('C20.R1', 'isStateRateBased marks an equation as checked BEFORE it descends into the equation\'s dependencies (user-supplied dependencies of external variables can be cyclic: a depends on b, b on a)')
     isr = F.fn1('Analyser::AnalyserImpl::isStateRateBased')
